@@ -35,6 +35,8 @@ KindsVals == {"empty", "HTTPRoute", "TCPRoute", "Other", "Both", "CoreGroup", "G
    selector; Selector with matchExpressions tier In (web) / tier NotIn (web); matchLabels tier=web and matchExpressions tier NotIn (web) *)
 FromVals  == {"noallowed", "nofrom", "Same", "All", "SelWeb", "SelDb", "SelNil", "ExprInWeb", "ExprNotInWeb", "SelWebExprNotWeb"}
 Labels    == {"web", "db"}
+(* the namespace of the routes may also carry no label at all: a selector made of negative expressions only still selects it *)
+RouteLabels == Labels \cup {"none"}
 RouteKinds == {"HTTPRoute", "TCPRoute"}
 RouteNs   == {"g", "r"}
 RefNames  == {"gw", "fgw", "nogw"}
@@ -205,7 +207,7 @@ ResolveWorlds ==
 ListenerWorlds ==
     {OneRoute([World0 EXCEPT !.label = [g |-> lg, r |-> lr], !.l = <<[proto |-> pr, host |-> "own", kinds |-> kd, from |-> fr], OpenL(IF pr = "HTTP" THEN "TCP" ELSE "HTTP")>>],
               MkRoute(k, n, <<[PlainRef EXCEPT !.section = sc]>>, 1, <<[s |-> 1, w |-> -1]>>)) :
-        lg \in Labels, lr \in Labels, pr \in Protos, kd \in KindsVals, fr \in FromVals, k \in RouteKinds, n \in RouteNs, sc \in Sections}
+        lg \in Labels, lr \in RouteLabels, pr \in Protos, kd \in KindsVals, fr \in FromVals, k \in RouteKinds, n \in RouteNs, sc \in Sections}
 
 (* conflicts: two routes that declare the same path (or the same TCP port) through the same listeners *)
 ConflictWorlds ==
